@@ -46,6 +46,14 @@ CHECKS = {
    technique="round-trip oracle against an independent kernel-style record writer (untrusted-string/hex/sockaddr encoders) + exhaustive errno and (arch, syscall) table sweep",
    text="Byte-string values are written the way the kernel writes them into 12 record positions and Data() must return the original bytes (NULs as spaces where the statement says so), drop only the four placeholders, and keep neighbours; generated IPv4/IPv6/unix socket addresses must decode to the same family/address/port/path; every errno and every (arch, syscall number) of the published tables, the result and unset rules are checked exhaustively.",
    note="Trusted base: the harness's re-implementation of audit_log_untrustedstring/audit_log_n_hex and struct sockaddr layouts (little-endian host). One known finding (single quote inside a nested msg='...' value)."),
+ "C06": dict(engine="rulegen", cat="exploration", ref="§5 C06",
+   technique="independent little-endian decoder at the UAPI offsets + hand-written UAPI constant tables (self-tested against linux/audit.h) over a field x operator x value grid and random rules",
+   text="Every generated request is built from a Rule struct and from text; the bytes are decoded at fixed audit_rule_data offsets by code that shares nothing with the library and compared with the request: list/action codes, one triple per filter in order then the joined keys, string lengths/back-to-back buffer/buflen, zero unused slots, 4-byte padding, exact syscall mask bits (every bit 0..2047 individually). A must-accept core keeps 'reject everything' from passing; 65 slots must be refused.",
+   note="Trusted base: internal/uapi (187 constants/offsets agree with /usr/include/linux/audit.h), the harness's value parsers, x/sys/unix syscall and errno numbers. amd64 little-endian only."),
+ "C07": dict(engine="rulegen", cat="exploration", ref="§5 C07",
+   technique="encode -> decode-to-text -> re-parse -> re-encode byte-equality monitor with first-differing-word witness, over the C06 generator restricted to the statement's domain",
+   text="For every rule Build accepts, ToCommandLine must succeed, the printed text must be accepted by flags.Parse and Build and give byte-identical wire data, and decoding again must give the same text. Found six genuine defects (all repaired in /repo) and one recorded finding (arch filter not first is printed first; classified only when the images are equal up to exactly that move).",
+   note="Trusted base: byte comparison and the independent decoder used to classify the one known permutation. Domain: shell-safe strings, watches that agree with the filesystem, amd64, resolveIds=false."),
 }
 
 NOT_YET = {
@@ -86,6 +94,8 @@ def main():
              "kind_free_text": "controlled scheduler over the verif yield hook (stateless DFS) + race-detector stress workload"},
             {"name": "logenc", "path": "/verif/harness/internal/logenc", "serves_properties": ["C04","C05","C12","C09","C15"],
              "kind_free_text": "real-record corpus, hostile mutators, kernel-style record writer"},
+            {"name": "rulegen", "path": "/verif/harness/internal/rulegen", "serves_properties": ["C06","C07","C13","C14","C20"],
+             "kind_free_text": "rule request generator (text + Rule structs), independent UAPI wire decoder; constants in internal/uapi"},
             {"name": "reasm", "path": "/verif/harness/internal/reasm", "serves_properties": ["C01","C02","C03","C10","C19"],
              "kind_free_text": "history generator + recording Stream + trace oracles over the real Reassembler"},
         ],
